@@ -146,20 +146,66 @@ def shiftVars (n k : Nat) (p : Poly) : Poly :=
 
 def prod (l : List Poly) : Poly := l.foldr mul (const 1)
 
+/-- `q_0(x_0) · … · q_{n-1}(x_{n-1})` for polynomials `q_k` in the single variable 0 -/
+def tprod (n : Nat) (q : Nat → Poly) : Poly :=
+  normalize (prod ((List.range n).map fun k => shiftVars n k (q k)))
+
 /-- tensor-product basis function `p_{ix 0}(x_0) * … * p_{ix (n-1)}(x_{n-1})` of a 1-D table -/
 def tensorVal (t1 : BasisTab) (n : Nat) (ix : List Nat) : Poly :=
-  normalize (prod ((List.range n).map fun k => shiftVars n k (t1.val (ix.getD k 0))))
+  tprod n fun k => t1.val (ix.getD k 0)
 
-/-- table of a tensor-product element: values are products of the 1-D table's polynomials (which factors: `idx`,
-found by the translator), gradients / Hessians are their formal derivatives; `samples` are the real evaluator's
-values, gradients and Hessians on the unisolvent grid, so `samplesOk` ties all of them to the code -/
+/-- its derivative w.r.t. `x_a`: the factor `a` is replaced by the 1-D table's derivative polynomial -/
+def tensorGrad (t1 : BasisTab) (n : Nat) (ix : List Nat) (a : Nat) : Poly :=
+  tprod n fun k => if k = a then t1.grad (ix.getD k 0) 0 else t1.val (ix.getD k 0)
+
+/-- its second derivative w.r.t. `x_a`, `x_b` -/
+def tensorHess (t1 : BasisTab) (n : Nat) (ix : List Nat) (a b : Nat) : Poly :=
+  tprod n fun k =>
+    if a = b then (if k = a then t1.hes (ix.getD k 0) 0 0 else t1.val (ix.getD k 0))
+    else (if k = a ∨ k = b then t1.grad (ix.getD k 0) 0 else t1.val (ix.getD k 0))
+
+/-- table of a tensor-product element: values, gradients and Hessians are products of the 1-D table's value /
+derivative polynomials (which factors: `idx`, found by the translator); `samples` are the real evaluator's values,
+gradients and Hessians on the unisolvent grid, so `samplesOk` ties all of them to the code -/
 def tensorTab (t1 : BasisTab) (n : Nat) (hasGrad hasHess : Bool) (idx : List (List Nat))
     (samples : List (List Rat × List Nat × List Rat)) : BasisTab :=
-  let vals := idx.map (tensorVal t1 n)
-  { nvars := n, nloc := idx.length, hasGrad := hasGrad, hasHess := hasHess, vals := vals,
-    grads := if hasGrad then vals.map fun v => (List.range n).map fun k => normalize (pderiv k v) else [],
-    hess := if hasHess then vals.map fun v => (List.range (n * n)).map fun ab =>
-      normalize (pderiv (ab % n) (normalize (pderiv (ab / n) v))) else [],
+  { nvars := n, nloc := idx.length, hasGrad := hasGrad, hasHess := hasHess,
+    vals := idx.map (tensorVal t1 n),
+    grads := if hasGrad then idx.map fun ix => (List.range n).map fun a => tensorGrad t1 n ix a else [],
+    hess := if hasHess then idx.map fun ix => (List.range (n * n)).map fun ab => tensorHess t1 n ix (ab / n) (ab % n)
+      else [],
     samples := samples }
+
+/-- all monomials have exactly one exponent (polynomial in the single variable 0) -/
+def oneVar (p : Poly) : Bool := p.all fun t => t.2.length == 1
+
+/-- product of the entries `g 0 … g (n-1)` -/
+def prodR (n : Nat) (g : Nat → Rat) : Rat := ((List.range n).map g).foldr (· * ·) 1
+
+/-- what a tensor table returns for basis function `i` at the point `l`, computed from 1-D evaluations only -/
+def fastRow (t1 : BasisTab) (n : Nat) (hasGrad hasHess : Bool) (idx : List (List Nat)) (l : List Rat) (i : Nat) :
+    List Rat :=
+  let ix := idx.getD i []
+  let P := fun k => evalAt [l.getD k 0] (t1.val (ix.getD k 0))
+  let D := fun k => evalAt [l.getD k 0] (t1.grad (ix.getD k 0) 0)
+  let D2 := fun k => evalAt [l.getD k 0] (t1.hes (ix.getD k 0) 0 0)
+  [prodR n P]
+    ++ (if hasGrad then (List.range n).map fun a => prodR n fun k => if k = a then D k else P k else [])
+    ++ (if hasHess then (List.range (n * n)).map fun ab =>
+          prodR n fun k =>
+            if ab / n = ab % n then (if k = ab / n then D2 k else P k)
+            else (if k = ab / n ∨ k = ab % n then D k else P k)
+        else [])
+
+/-- the samples of the real 3-D evaluator are the products of the 1-D table's evaluations -/
+def fastSamplesOk (t1 : BasisTab) (n : Nat) (hasGrad hasHess : Bool) (idx : List (List Nat))
+    (samples : List (List Rat × List Nat × List Rat)) : Bool :=
+  samples.all fun s =>
+    let sp := sparse 0 ((List.range idx.length).flatMap (fastRow t1 n hasGrad hasHess idx s.1))
+    s.2.1 == sp.map (·.1) && s.2.2 == sp.map (·.2)
+
+/-- every value / first / second derivative polynomial of the 1-D table is a polynomial in one variable -/
+def oneVarTab (t1 : BasisTab) : Bool :=
+  t1.vals.all oneVar && t1.grads.all (·.all oneVar) && t1.hess.all (·.all oneVar)
 
 end FeatModel.Poly
